@@ -5,6 +5,7 @@ import Tau.Proofs.MappingSafe
 import Tau.Proofs.SafeOpt
 import Tau.Proofs.Shake1Safe
 import Tau.Proofs.MatrixSafe
+import Tau.Proofs.IdentScan
 /-
   C03 — An accepted rule can always be evaluated (no panic after load).
 -/
@@ -371,5 +372,71 @@ theorem optimised_never_panics (E : RegexEngine) (ic : Bool) (entries : List (St
   · exact good_never_panics E _ (good_pass _ hmx _ _ (good_pass _ hshake _ _ gc)) g
   · exact good_never_panics E _ (good_pass _ hrw _ _ (good_pass _ hshake _ _ gc)) g
   · exact good_never_panics E _ (good_pass _ hmx _ _ (good_pass _ hrw _ _ (good_pass _ hshake _ _ gc))) g
+
+end Tau.C03
+
+namespace Tau.C03
+open Tau
+
+/-! ### The loader's scan and the parsed tree: no hypothesis left
+
+`loaded_rule_never_panics` and `optimised_never_panics` assume that the identifiers the parsed
+condition mentions are defined. The loader establishes that with a scan over TOKEN positions
+(rule.rs:104-125: every identifier token, except one two places behind a modifier). That the scan
+covers every identifier of the TREE is `parse_idents_scanned` (Tau/Proofs/IdentScan.lean, an
+induction over the four parser functions with a two-token look-back). -/
+
+/-- **Every identifier the condition of a loaded rule mentions exists** — the property's own clause,
+    with no side condition: whatever tree the Pratt parser built from the condition text, each
+    identifier in it (bare, under `not`, under `and`/`or`, under `all(..)` / `of(.., n)`) has a
+    body in the detection block. -/
+theorem loaded_idents_defined (E : RegexEngine) (ic : Bool) (entries : List (Str × Yaml)) (d : Detection)
+    (h : loadDetection E ic entries = .ok d) :
+    ∀ i ∈ condIdents d.expr, (lookupId d.ids i).isSome = true := by
+  unfold loadDetection at h
+  split at h
+  · cases h
+  · rename_i st hst
+    split at h
+    · cases h
+    · rename_i raw hraw
+      split at h
+      · cases h
+      · rename_i tokens htok
+        split at h
+        · cases h
+        · rename_i hpres
+          split at h
+          · cases h
+          · rename_i e he
+            split at h
+            · cases h
+            · cases h
+              intro i hi
+              have hp : identsPresent st.ids tokens = true := by
+                cases hq : identsPresent st.ids tokens
+                · simp [hq] at hpres
+                · rfl
+              exact identsPresent_scan st.ids tokens hp i (parse_idents_scanned tokens e he i hi)
+
+/-- **If loading succeeds, matching never panics** — no side condition. -/
+theorem load_then_match_never_panics (E : RegexEngine) (ic : Bool) (entries : List (Str × Yaml)) (d : Detection)
+    (h : loadDetection E ic entries = .ok d) (g : Str → Option Value) :
+    hitsTop E d.ids (.user g) d.expr = false :=
+  loaded_rule_never_panics E ic entries d h (loaded_idents_defined E ic entries d h) g
+
+/-- **If loading succeeds, matching the rule optimised with ANY of the 16 switch combinations never
+    panics** — no side condition. -/
+theorem load_optimise_match_never_panics (E : RegexEngine) (ic : Bool) (entries : List (Str × Yaml))
+    (d : Detection) (h : loadDetection E ic entries = .ok d) (sw : Switches) (g : Str → Option Value) :
+    let o := optimiseTree E sw d.ids d.expr
+    hitsTop E o.2 (.user g) o.1 = false :=
+  optimised_never_panics E ic entries d h (loaded_idents_defined E ic entries d h) sw g
+
+/-- The skipped position matters: `int(A) > 1` with no identifier `A` loads (A is a field there)… -/
+example : identsPresent [] [.modifier .int, .lparen, .ident ['A'], .rparen, .op .gt, .int 1] = true := by decide
+/-- …while `A` on its own, or under `all(..)`, is refused when undefined. -/
+example : identsPresent [] [.ident ['A']] = false := by decide
+example : identsPresent [] [.matchAll, .lparen, .ident ['A'], .rparen] = false := by decide
 
 end Tau.C03
